@@ -69,7 +69,8 @@ Theorem C11_prop_draw_ok_iff : forall n s lo hi obs,
 Proof. exact prop_draw_ok_iff. Qed.
 
 (* the acceptors the correspondence check evaluates on the implementation's outputs are sound
-   (accepted => property) and complete for the model (every oracle value is accepted) *)
+   (accepted => property); the iterator's is also complete for the model (every pivot's output is
+   accepted); for accept_draw only soundness is proved *)
 Theorem C11_accept_iter_sound : forall n s lo hi obs,
   0 < n -> s < n -> lo <= hi -> hi <= u16_max ->
   accept_iter n s lo hi obs = true -> Permutation obs (spec_ports n s lo hi) /\ NoDup obs.
@@ -163,10 +164,13 @@ Theorem C11_connect_tried_all : forall n s lo hi pivot avail p,
   lo <= p <= hi -> p mod n = s -> In p (tried_shard_aware n s lo hi pivot avail).
 Proof. intros n s lo hi pivot avail p Hn Hs Hle Hhi. exact (tried_sa_all_when_none n s lo hi Hn Hs Hle Hhi pivot avail p). Qed.
 
-(* the end-to-end acceptor (driver, E lines) says exactly the property's sentence for the
-   observation point "source port of shard-aware connections accepted by the mock node", plus
-   "never a port the harness holds bound" *)
-Theorem C11_connect_accept_iff : forall n lo hi pre obs,
+(* BOOLEAN REFLECTION of the acceptor's definition (forallb / andb unfolded), no further content:
+   the end-to-end acceptor says the property's sentence for the observation point "source port of
+   shard-aware connections accepted by the mock node" (with pre = [] this is what the driver
+   reports as viol), plus "not a port the harness holds bound" (not a sentence of C11: diff).
+   Per connection only: the list may contain the same port twice (a port can be used again after
+   its connection was reset); the list-level checks are C11_connect_many_count below *)
+Theorem C11_connect_accept_reflect : forall n lo hi pre obs,
   accept_conns n lo hi pre obs = true <->
   (forall port shard, In (port, shard) obs ->
      lo <= port <= hi /\ port mod n = shard /\ ~ In port pre).
@@ -190,9 +194,10 @@ Theorem C11_connect_accept_model : forall n lo hi pre port shard,
     open_shard_aware n shard lo hi pivot avail = Conn port.
 Proof. exact accept_conn_model. Qed.
 
-(* starved shards (every port of the set pre-bound, or none exists): the loop can only end in
-   NoSourcePortForShard, and no accepted shard-aware connection serves such a shard *)
-Theorem C11_connect_starved_iff : forall n s lo hi pre, lo <= hi + 1 ->
+(* starved shards (every port of the set pre-bound, or none exists): C11_connect_starved_reflect
+   is the boolean reflection of starvedb's definition through spec_ports_In; the loop can only end
+   in NoSourcePortForShard, and no accepted shard-aware connection serves such a shard *)
+Theorem C11_connect_starved_reflect : forall n s lo hi pre, lo <= hi + 1 ->
   starvedb n s lo hi pre = true <->
   (forall p, lo <= p <= hi -> p mod n = s -> In p pre).
 Proof. exact starvedb_iff. Qed.
@@ -206,6 +211,41 @@ Proof. exact starved_none. Qed.
 Theorem C11_connect_accept_not_starved : forall n lo hi pre port shard,
   accept_conn n lo hi pre port shard = true -> starvedb n shard lo hi pre = false.
 Proof. exact accept_conn_not_starved. Qed.
+
+(* ---- list level: what the driver RUNS on every E line (extracted open_many, some_pivot_gives) ----
+   successive runs of the loop for one shard in the environment "exactly the ports of [busy] are
+   unavailable, every other attempt connects; a port that carried a connection stays busy".
+   HOWEVER THE PIVOTS FALL the number of connections opened is min(runs, free ports of the shard):
+   a loop that gave up at the first busy port, or went on after a success, opens another number. *)
+Theorem C11_connect_many_count : forall n s lo hi pivots busy,
+  0 < n -> s < n -> lo <= hi -> hi <= u16_max ->
+  List.length (open_many n s lo hi pivots busy) =
+  Nat.min (List.length pivots) (List.length (free_ports n s lo hi busy)).
+Proof. exact open_many_length. Qed.
+
+Theorem C11_connect_many_In : forall n s lo hi pivots busy p,
+  0 < n -> s < n -> lo <= hi -> hi <= u16_max ->
+  In p (open_many n s lo hi pivots busy) -> lo <= p <= hi /\ p mod n = s /\ ~ In p busy.
+Proof. exact open_many_In. Qed.
+
+(* the driver's per-connection question "is this port the loop's outcome for some pivot in the
+   known environment" is answered by running the loop for every pivot below k *)
+Theorem C11_connect_some_pivot : forall n s lo hi busy port k,
+  some_pivot_gives n s lo hi busy port k = true <->
+  exists pivot, (pivot < k)%nat /\ open_shard_aware n s lo hi pivot (env_busy busy) = Conn port.
+Proof. exact some_pivot_gives_iff. Qed.
+
+Example C11_ex_connect_many :
+  (* three runs, two free ports (65523 held): two connections whatever the pivots *)
+  open_many 5 3 65520 65535 [0; 0; 0]%nat [65523] = [65528; 65533] /\
+  open_many 5 3 65520 65535 [2; 1; 0]%nat [65523] = [65533; 65528] /\
+  open_many 5 3 65520 65535 [1]%nat [65523] = [65528] /\
+  open_many 5 3 65520 65535 [1; 2]%nat [65523; 65528; 65533] = [] /\
+  free_ports 5 3 65520 65535 [65523] = [65528; 65533] /\
+  some_pivot_gives 5 3 65520 65535 [65523] 65528 3 = true /\
+  some_pivot_gives 5 3 65520 65535 [65523] 65523 3 = false /\
+  some_pivot_gives 5 3 65520 65535 [65523] 65529 3 = false.
+Proof. repeat split; vm_compute; reflexivity. Qed.
 
 (* non-vacuity of the connect-loop theorems: ports 65523, 65528, 65533 serve shard 3 of 5 *)
 Definition ex_env (unavail : list N) (bad : list N) : N -> outcome :=
@@ -296,9 +336,12 @@ Print Assumptions C11_connect_none_iff.
 Print Assumptions C11_connect_none_empty.
 Print Assumptions C11_connect_tried.
 Print Assumptions C11_connect_tried_all.
-Print Assumptions C11_connect_accept_iff.
+Print Assumptions C11_connect_accept_reflect.
 Print Assumptions C11_connect_accept_complete.
 Print Assumptions C11_connect_accept_model.
-Print Assumptions C11_connect_starved_iff.
+Print Assumptions C11_connect_starved_reflect.
 Print Assumptions C11_connect_starved_none.
 Print Assumptions C11_connect_accept_not_starved.
+Print Assumptions C11_connect_many_count.
+Print Assumptions C11_connect_many_In.
+Print Assumptions C11_connect_some_pivot.
